@@ -52,6 +52,7 @@ func runC14(c *core.Ctx) {
 	c14R7(c)
 	c20R5as(c, "C14.R8")
 	c14R9(c, "C14.R9")
+	jsonTargetRule(c, "C14.R10", "service/keyban")
 }
 
 // c14R7: the ban lookup reads the replicated state under the ban's own key and type.
